@@ -143,17 +143,24 @@ fn struct_field_has_sigs(fields: &syn::Fields) -> TokenStream {
     }
 
     quote! {
-        if sig.starts_with('(') {
-            let mut iter = ::rustbus::signature::SignatureIter::new(&sig[1..sig.len() - 1]);
-            let mut accu = true;
+        let Some(sig) = sig.strip_prefix('(') else {
+            return false;
+        };
+        let Some(sig) = sig.strip_suffix(')') else {
+            return false;
+        };
+        let mut iter = ::rustbus::signature::SignatureIter::new(sig);
 
-            #(
-                accu &= <#field_types as rustbus::Signature>::has_sig(iter.next().unwrap());
-            )*
+        #(
+            let Some(field_sig) = iter.next() else {
+                return false;
+            };
+            if !<#field_types as ::rustbus::Signature>::has_sig(field_sig) {
+                return false;
+            }
+        )*
 
-            accu
-        } else {
-            false
-        }
+        // the struct in the signature must not have more fields than this type
+        iter.next().is_none()
     }
 }
